@@ -49,6 +49,12 @@ TBurst ==
      ELSE /\ (IF conn = "up" /\ sending THEN CBurst(Ev.ms) ELSE UNCHANGED cvars)
           /\ Report(StDiff(Ev.st))
           /\ UNCHANGED dead
+\* concurrent Q calls that carry one operation id: whatever their order, GribiClient registers the first and records an error for
+\* each of the others (CQ on an id that is pending) - the driver counts the rounds in which the real client did otherwise
+TDupQ ==
+  /\ ~dead /\ IsEvent("cdupq")
+  /\ Report(IF Ev.bad > 0 THEN {"clientDuplicateIdNotReported"} ELSE {})
+  /\ dead' = TRUE /\ UNCHANGED cvars
 TStart ==
   /\ ~dead /\ IsEvent("cstart")
   /\ IF conn = "up" /\ ~sending THEN CStart ELSE UNCHANGED cvars
@@ -100,7 +106,7 @@ TReset ==
                       \/ Ev.st.sendErrs # 0 \/ Ev.st.recvErrs # 0, "clientNotFreshAfterReset"))
   /\ UNCHANGED dead
 
-CTNext == TAck \/ TBurst \/ TDead \/ TNew \/ THang \/ TConnect \/ TQ \/ TStart \/ TDeliver \/ TRecvFail \/ TRecvEOF \/ TSendFail \/ TAwait \/ TClose \/ TReset
+CTNext == TAck \/ TBurst \/ TDupQ \/ TDead \/ TNew \/ THang \/ TConnect \/ TQ \/ TStart \/ TDeliver \/ TRecvFail \/ TRecvEOF \/ TSendFail \/ TAwait \/ TClose \/ TReset
 CTSpec == CTInit /\ [][CTNext]_ctvars
 
 Matched == TLCGet("stats").diameter - 1
